@@ -25,7 +25,10 @@ def judge_total(rep, text, obs, counts):
     for key in ("none", "default", "debug"):
         o = obs[key]
         counts[o["class"]] = counts.get(o["class"], 0) + 1
-        if o["class"] in ("other", "timeout"):
+        if o["class"] == "other" and o.get("type") == "MemoryError" and text in F.EAGER_UNROLL_TEXTS:
+            # recorded finding: repetition counts are unrolled eagerly, so a count near the 32-bit limit cannot be allocated
+            rep.known_finding("eager-unroll-memory", f"from_grammar({text!r}, optimizer={key}) -> MemoryError")
+        elif o["class"] in ("other", "timeout"):
             rep.violation({"kind": "not-total", "text": text, "optimizer": key, "outcome": o}, f"from_grammar({text[:100]!r}, optimizer={key}) -> {o.get('type', 'timeout')}: {o.get('message', '')[:120]}")
         elif o["class"] == "grammar_error":
             if "render_error" in o:
